@@ -462,8 +462,12 @@ func scalarToHeader(a interface{}) (hdr *storage.Header, newAlloc bool) {
 	case Memory:
 		// a scalar held in a tensor is read through a scratch copy, like a Go value: the single-element kernels compute
 		// into the scalar's buffer, which overwrote the scalar tensor that was only an operand
-		src := storage.FromMemory(at.Uintptr(), at.MemSize())
-		raw = scalarPool(at.MemSize()).Get().([]byte)
+		size := at.MemSize()
+		if t, ok := a.(Tensor); ok && t.Size() == 1 && uintptr(t.Dtype().Size()) < size {
+			size = uintptr(t.Dtype().Size()) // a one-element view with a longer storage window: the scalar is its first element
+		}
+		src := storage.FromMemory(at.Uintptr(), size)
+		raw = scalarPool(size).Get().([]byte)
 		copy(raw, src)
 		newAlloc = true
 		hdr = borrowHeader()
